@@ -124,61 +124,61 @@ def gap_rule(ctx: Ctx, rs: RuleSet):
   head, body_nodes = param_loops[0]
   if any(g.kind[x] in ('for', 'while') for x in body_nodes if x != head):
     raise AnalysisError(f'{T2AK}: per-parameter loop body is not acyclic')
-  # enumerate iteration paths head -iter-> ... -> head
-  paths = []
-
-  def dfs(n, path, kinds):
-    if len(paths) > 5000:
-      raise AnalysisError('too many paths in the per-parameter loop')
-    for m, lab in g.succ[n]:
-      if lab == 'exc':
-        continue
-      if n == head and lab != 'iter':
-        continue
-      ks = kinds
-      if g.kind[n] == 'if' and lab in ('true', 'false'):
-        kb = kinds_on_branch(g.stmt[n].test, lab == 'true')
-        if kb is not None:
-          ks = kinds & kb
-          if not ks:
-            continue  # infeasible for any kind
-      if m == head:
-        paths.append((path, ks, 'next'))
-      elif m in (g.exit, g.raise_exit) or m not in body_nodes:
-        paths.append((path + [m], ks, 'leave'))
-      else:
-        dfs(m, path + [m], ks)
-
-  dfs(head, [], set(sigrules.KINDS))
+  # enumerate iteration paths head -iter-> ... -> head, per parameter kind:
+  # a test that the kind decides has one feasible branch; for the others the
+  # part of the test that the kind leaves open (its residual) is recorded
   loop_vars = {x.id for x in ast.walk(g.stmt[head].target)
                if isinstance(x, ast.Name)}
 
-  def mode_switched(pth) -> bool:
-    """The path takes the false branch of a test that does not depend on the
+  def iteration_paths(kind):
+    out = []
 
-    current parameter (a loop-wide mode switch such as 'pass by keyword').
-    """
-    for i, x in enumerate(pth):
-      if g.kind[x] == 'if':
-        has_kind = any(kind_atom(c) for c in ast.walk(g.stmt[x].test)
-                       if isinstance(c, ast.Compare))
-        if has_kind:
+    def dfs(n, path, decisions):
+      if len(out) > 5000:
+        raise AnalysisError('too many paths in the per-parameter loop')
+      for m, lab in g.succ[n]:
+        if lab == 'exc':
           continue
-        # the first test that is not a kind test decides
-        nxt = pth[i + 1] if i + 1 < len(pth) else head
-        lab = [l for m, l in g.succ[x] if m == nxt and l in ('true', 'false')]
-        names = {y.id for y in ast.walk(g.stmt[x].test)
-                 if isinstance(y, ast.Name)}
-        return lab == ['false'] and not (names & loop_vars)
-    return False
+        if n == head and lab != 'iter':
+          continue
+        ds = decisions
+        if g.kind[n] == 'if' and lab in ('true', 'false'):
+          r = sigrules.residual(g.stmt[n].test, kind)
+          if isinstance(r, bool):
+            if r != (lab == 'true'):
+              continue  # infeasible for this kind
+          else:
+            ds = decisions + [(n, lab, r)]
+        if m == head:
+          out.append((path, 'next', ds))
+        elif m in (g.exit, g.raise_exit) or m not in body_nodes:
+          out.append((path + [m], 'leave', ds))
+        else:
+          dfs(m, path + [m], ds)
+
+    dfs(head, [], [])
+    return out
+
+  def mode_switched(decisions) -> bool:
+    """The first test the kind leaves open does not depend on the current
+    parameter (a loop-wide mode switch such as 'pass by keyword') and the path
+    takes its false branch.
+    """
+    if not decisions:
+      return False
+    _, lab, r = decisions[0]
+    names = {y.id for y in ast.walk(r) if isinstance(y, ast.Name)}
+    return lab == 'false' and not (names & loop_vars)
 
   skip_vars: Set[str] = set()
   mode_paths = []
   n_checked = 0
+  ctx.t2ak_paths = {}
   for kind in ('POSITIONAL_ONLY', 'POSITIONAL_OR_KEYWORD'):
-    kpaths = [(pth, how) for pth, ks, how in paths if kind in ks]
+    kpaths = iteration_paths(kind)
+    ctx.t2ak_paths[kind] = kpaths
     silent, recorded, emitting = [], [], []
-    for pth, how in kpaths:
+    for pth, how, decisions in kpaths:
       if how == 'leave':
         continue
       if any(emits(x) for x in pth):
@@ -188,8 +188,8 @@ def gap_rule(ctx: Ctx, rs: RuleSet):
       if effs:
         recorded.append((pth, effs))
         skip_vars.update(effs)
-      elif mode_switched(pth):
-        mode_paths.append((kind, pth))
+      elif mode_switched(decisions):
+        mode_paths.append((kind, decisions[0][2]))
       else:
         silent.append(pth)
     n_checked += len(kpaths)
@@ -213,10 +213,8 @@ def gap_rule(ctx: Ctx, rs: RuleSet):
             ctx.loc(f, g.stmt[head]))
   # keyword mode: positional-or-keyword parameters stay in the residual dict
   # only when no *args value is configured
-  for kind, pth in mode_paths:
-    tests = [g.stmt[x].test for x in pth if g.kind[x] == 'if' and not any(
-        kind_atom(c) for c in ast.walk(g.stmt[x].test)
-        if isinstance(c, ast.Compare))]
+  for kind, mode_test in mode_paths:
+    tests = [mode_test]
     ok = any(
         isinstance(c, ast.Compare) and isinstance(c.ops[0], ast.In) and
         isinstance(c.left, ast.Attribute) and
@@ -336,38 +334,64 @@ def kd_rules(ctx: Ctx, rs: RuleSet, L: str, helpers):
   f = ctx.func(T2AK)
   g = ctx.cfg(f)
   arg_param = f.params[1]
-  for n in walk_function(f.node):
-    if not isinstance(n, ast.If):
-      continue
-    ks = kinds_on_branch(n.test, True)
-    if ks is None or len(ks) != 1:
-      continue
-    k = next(iter(ks))
-    if k not in ('POSITIONAL_ONLY', 'POSITIONAL_OR_KEYWORD'):
-      continue
-    reads = []
-    for s in walk_stmts(n.body):
-      if isinstance(s, ast.Call) and (
-          _appends_to(s, L) or (isinstance(s.func, ast.Name) and
-                                s.func.id in helpers)):
-        for a0 in s.args:
-          if isinstance(a0, ast.Subscript) and isinstance(
-              a0.value, ast.Name) and a0.value.id == arg_param:
-            reads.append(a0)
-    dels = [unparse(t) for s in walk_stmts(n.body) if isinstance(s, ast.Delete)
-            for t in s.targets]
-    want_name = k == 'POSITIONAL_OR_KEYWORD'
-    ok = bool(reads)
-    for r in reads:
-      by_name = any(isinstance(x, ast.Attribute) and x.attr == 'name'
-                    for x in ast.walk(r.slice))
-      if by_name != want_name:
-        ok = False
-      if unparse(r) not in dels:
-        ok = False
-    rs.check(ok, rule, f'{f.qualname}:{k}',
-             f'{k}: reads {[unparse(r) for r in reads]}, deletes {dels}',
-             ctx.loc(f, n))
+  # Per kind, along every iteration path that emits a value read from the
+  # storage dict: the key of the read is the enumeration index for
+  # positional-only parameters and the parameter's name for
+  # positional-or-keyword ones (locals are followed along the path), and the
+  # same key is deleted on that path.
+  heads = [n for n in g.nodes() if g.kind[n] == 'for']
+  idx_names = set()
+  for n in heads:
+    it, tgt = g.stmt[n].iter, g.stmt[n].target
+    if isinstance(it, ast.Call) and unparse(it.func) == 'enumerate' and (
+        isinstance(tgt, ast.Tuple)) and isinstance(tgt.elts[0], ast.Name):
+      idx_names.add(tgt.elts[0].id)
+
+  def key_class(e, pth, upto, depth=0):
+    if any(isinstance(x, ast.Attribute) and x.attr == 'name'
+           for x in ast.walk(e)):
+      return 'name'
+    if isinstance(e, ast.Name):
+      if e.id in idx_names:
+        return 'index'
+      if depth < 4:
+        for j in range(upto - 1, -1, -1):
+          st = g.stmt[pth[j]]
+          if g.kind[pth[j]] == 'stmt' and isinstance(
+              st, ast.Assign) and any(isinstance(t, ast.Name) and t.id == e.id
+                                      for t in st.targets):
+            return key_class(st.value, pth, j, depth + 1)
+    return 'other'
+
+  for k in ('POSITIONAL_ONLY', 'POSITIONAL_OR_KEYWORD'):
+    reads, bad = [], []
+    first = None
+    for pth, how, _ in getattr(ctx, 't2ak_paths', {}).get(k, []):
+      dels = {unparse(t) for x in pth if g.kind[x] == 'stmt' and isinstance(
+          g.stmt[x], ast.Delete) for t in g.stmt[x].targets}
+      for i, x in enumerate(pth):
+        if g.kind[x] != 'stmt':
+          continue
+        for c in cfg_lib.walk_node(g, x):
+          if isinstance(c, ast.Call) and (
+              _appends_to(c, L) or (isinstance(c.func, ast.Name) and
+                                    c.func.id in helpers)):
+            for a0 in c.args:
+              if isinstance(a0, ast.Subscript) and isinstance(
+                  a0.value, ast.Name) and a0.value.id == arg_param:
+                first = first or g.stmt[x]
+                kc = key_class(a0.slice, pth, i)
+                reads.append((unparse(a0), kc))
+                want = 'name' if k == 'POSITIONAL_OR_KEYWORD' else 'index'
+                if kc != want:
+                  bad.append(f'`{unparse(a0)}` is keyed by {kc}')
+                if unparse(a0) not in dels:
+                  bad.append(f'`{unparse(a0)}` is not deleted on its path')
+    rs.check(bool(reads) and not bad, rule, f'{f.qualname}:{k}',
+             f'{k}: reads {sorted(set(reads))}' + (
+                 '; ' + '; '.join(sorted(set(bad))) if bad else
+                 ', each deleted on its path'),
+             ctx.loc(f, first if first is not None else f.node))
   # variadic tail: reads by running index from var_positional_start
   ok = False
   for n in walk_function(f.node):
@@ -663,26 +687,28 @@ def delegation(ctx: Ctx, rs: RuleSet):
   f = ctx.func(f'{B}.__init__')
   a = f.node.args
   ok_bind = ok_store = False
-  bound = None
-  for n in walk_function(f.node):
-    if isinstance(n, ast.Assign) and isinstance(n.value, ast.Call) and (
-        isinstance(n.value.func, ast.Attribute) and
-        n.value.func.attr == 'signature_binding'):
-      c = n.value
+
+  def is_binding(c):
+    return isinstance(c, ast.Call) and isinstance(
+        c.func, ast.Attribute) and c.func.attr == 'signature_binding'
+
+  for c in walk_function(f.node):
+    if is_binding(c):
       star = [x.value.id for x in c.args if isinstance(x, ast.Starred) and
               isinstance(x.value, ast.Name)]
       dstar = [k.value.id for k in c.keywords if k.arg is None and
                isinstance(k.value, ast.Name)]
-      ok_bind = (a.vararg and star == [a.vararg.arg] and a.kwarg and
-                 dstar == [a.kwarg.arg] and len(c.args) == 2 and
-                 isinstance(c.args[0], ast.Name) and
-                 c.args[0].id == f.params[1])
-      bound = n.targets[0].id if isinstance(n.targets[0], ast.Name) else None
+      ok_bind = bool(a.vararg and star == [a.vararg.arg] and a.kwarg and
+                     dstar == [a.kwarg.arg] and len(c.args) == 2 and
+                     isinstance(c.args[0], ast.Name) and
+                     c.args[0].id == f.params[1])
+  # the loop over the bound pairs: `for k, v in <binding>.items()` where the
+  # binding is the call itself or a local holding it
   for n in walk_function(f.node):
     if isinstance(n, ast.For) and isinstance(n.iter, ast.Call) and isinstance(
         n.iter.func, ast.Attribute) and n.iter.func.attr == 'items' and (
-            isinstance(n.iter.func.value, ast.Name) and
-            n.iter.func.value.id == bound) and isinstance(n.target, ast.Tuple):
+            is_binding(roles.deref(f, n.iter.func.value))) and isinstance(
+                n.target, ast.Tuple):
       kv = [e.id for e in n.target.elts if isinstance(e, ast.Name)]
       for s in walk_stmts(n.body):
         if isinstance(s, ast.Call) and isinstance(
@@ -720,39 +746,34 @@ def children_before_call(ctx: Ctx, rs: RuleSet, rule='DOM.children-before-call')
       a1 = e.args[1] if len(e.args) > 1 else kwarg(e, 'arguments')
       ok = False
       detail = 'argument expression not understood'
-      if isinstance(a1, ast.Name) and len(defs.get(a1.id, [])) == 1:
-        dn, dv = defs[a1.id][0]
-        # metadata.arguments(sub.values)
-        if (isinstance(dv, ast.Call) and isinstance(dv.func, ast.Attribute) and
-            dv.func.attr == 'arguments' and len(dv.args) == 1 and
-            isinstance(dv.args[0], ast.Attribute) and
-            dv.args[0].attr == 'values' and
-            isinstance(dv.args[0].value, ast.Name)):
-          sub = dv.args[0].value.id
-          md = dv.func.value
-          md_ok = False
-          if isinstance(md, ast.Name) and len(defs.get(md.id, [])) == 1:
-            mv = defs[md.id][0][1]
-            md_ok = (isinstance(mv, ast.Attribute) and mv.attr == 'metadata'
-                     and isinstance(mv.value, ast.Name) and mv.value.id == sub)
-          elif isinstance(md, ast.Attribute) and md.attr == 'metadata' and (
-              isinstance(md.value, ast.Name) and md.value.id == sub):
-            md_ok = True
-          sub_ok = False
-          if len(defs.get(sub, [])) == 1:
-            sn, sv = defs[sub][0]
-            sub_ok = (isinstance(sv, ast.Call) and isinstance(
-                sv.func, ast.Attribute) and
-                      sv.func.attr == 'flattened_map_children' and
-                      len(sv.args) == 1 and isinstance(sv.args[0], ast.Name) and
-                      sv.args[0].id == value and
-                      g.dominated_by(n, {sn}, labels=cfg_lib.NO_EXC))
-          first_ok = e.args and isinstance(
-              e.args[0], ast.Name) and e.args[0].id == value
-          ok = md_ok and sub_ok and first_ok
-          detail = (f'arguments = <metadata of the flatten>.arguments(<built '
-                    f'children>) : metadata_ok={md_ok} children_ok={sub_ok} '
-                    f'same_value={bool(first_ok)}')
+      dv = roles.deref(f, a1) if a1 is not None else None
+      # metadata.arguments(sub.values), each part possibly held in a local
+      if (isinstance(dv, ast.Call) and isinstance(dv.func, ast.Attribute) and
+          dv.func.attr == 'arguments' and len(dv.args) == 1):
+        vals = roles.deref(f, dv.args[0])
+        md = roles.deref(f, dv.func.value)
+        sub = None
+        if isinstance(vals, ast.Attribute) and vals.attr == 'values' and (
+            isinstance(vals.value, ast.Name)):
+          sub = vals.value.id
+        md_ok = (sub is not None and isinstance(md, ast.Attribute) and
+                 md.attr == 'metadata' and isinstance(md.value, ast.Name) and
+                 md.value.id == sub)
+        sub_ok = False
+        if sub is not None and len(defs.get(sub, [])) == 1:
+          sn, sv = defs[sub][0]
+          sub_ok = (isinstance(sv, ast.Call) and isinstance(
+              sv.func, ast.Attribute) and
+                    sv.func.attr == 'flattened_map_children' and
+                    len(sv.args) == 1 and isinstance(sv.args[0], ast.Name) and
+                    sv.args[0].id == value and
+                    g.dominated_by(n, {sn}, labels=cfg_lib.NO_EXC))
+        first_ok = e.args and isinstance(
+            e.args[0], ast.Name) and e.args[0].id == value
+        ok = bool(md_ok and sub_ok and first_ok)
+        detail = (f'arguments = <metadata of the flatten>.arguments(<built '
+                  f'children>) : metadata_ok={md_ok} children_ok={sub_ok} '
+                  f'same_value={bool(first_ok)}')
       rs.check(ok, rule, key, detail, ctx.loc(f, e))
     # every other value goes through map_children of the same traversal:
     # no return of the callback may bypass it
